@@ -3,10 +3,10 @@ package main
 // C03/selfclose-guard — the self-closing rewrite touches only elements whose opening and closing tag names agree.
 
 import (
-	"regexp/syntax"
 	"fmt"
 	"go/constant"
 	"regexp"
+	"regexp/syntax"
 	"strings"
 
 	"golang.org/x/tools/go/ssa"
